@@ -423,7 +423,7 @@ class _Gen:
                 axis: Any = None
             else:
                 k = int(rng.integers(1, nd + 1))
-                axes = sorted(rng.permutation(nd)[:k].tolist())
+                axes = rng.permutation(nd)[:k].tolist()      # any order, as NumPy allows
                 axis = axes[0] if len(axes) == 1 and rng.random() < 0.5 else axes
             return self.try_call({"op": op, "a": a, "axis": axis})
         if op in ("stack", "concatenate"):
